@@ -152,6 +152,13 @@ def variant(x, v):
         x = np.array(x, copy=True)
         x.flags.writeable = False
         return x
+    if v == 'bool':
+        if np.iscomplexobj(x):
+            return x
+        b = np.asarray(x, dtype=float) > 0
+        if not np.any(b):
+            b[0] = True
+        return b
     if v in NARROW:
         if np.iscomplexobj(x):
             return x
